@@ -236,3 +236,82 @@ class ListSymClone(_Clone):
   def _stored(self, interp, frame):
     return frame.locals['v']
 
+
+
+# ---------------------------------------------------------------------------
+# pg.Ref: a clone of a reference is a NEW Ref node holding the VERY SAME
+# referenced object (the one deliberate sharing the statement allows).
+
+from pyglove.core.symbolic import ref as _ref   # noqa: E402  pylint: disable=wrong-import-position
+
+
+@register
+class RefSymClone(Contract):
+  prop = 'C07'
+  target = 'pyglove.core.symbolic.ref:Ref._sym_clone'
+  inline = (f'{SB}:Symbolic.allow_partial',)
+
+  def inputs(self, b):
+    self._value = absobj.ref(Child, b.int('referenced').z)
+    s = SObj(_ref.Ref, {'_value': self._value, '_allow_partial': b.bool('allow_partial'),
+                        '_sym_parent': b.choice('parent_kind', [None, SObj(pg.Dict, {}, name='parent')])},
+             name='self')
+    return dict(self=s, deep=b.bool('deep'), memo=b.choice('memo_kind', [None, SAny('memo')])), {}
+
+  def setup_policy(self, policy):
+    def construct(interp, args, kwargs, frame):
+      r = SObj(_ref.Ref, {}, name='copy')
+      interp.path.event('construct', 'Ref', ([interp.resolve(a) for a in args], dict(kwargs), r))
+      return r
+    policy.handlers[('new', _ref.Ref)] = construct
+    policy.handlers[('identical',)] = absobj.identical_handler
+
+  def trace_new_ref_to_the_same_object(self, events, outcome, interp, env):
+    if outcome[0] != 'return':
+      return False
+    c = [e for e in events if e.kind == 'construct']
+    if len(c) != 1:
+      return False
+    args, kwargs, r = c[0].data
+    s = interp.resolve(env['self'])
+    res = interp.resolve(outcome[1])
+    if res is not r or res is s:
+      return False
+    target = args[0] if args else kwargs.get('value')
+    if interp.resolve(target) is not self._value:
+      return False
+    ap = kwargs.get('allow_partial', args[1] if len(args) > 1 else None)
+    z = interp.truth_z(interp.identical(ap, s.fields['_allow_partial'])) if ap is not None else False
+    if z is False:
+      z = interp.truth_z(interp.compare(__import__('ast').Eq, ap, s.fields['_allow_partial']))
+    return z
+
+  def trace_original_untouched(self, events, outcome, interp, env):
+    s = interp.resolve(env['self'])
+    return not [e for e in events if e.kind in ('write', 'payload-write') and e.data and e.data[0] is s]
+
+  def replay(self, obligation, m):
+    import copy
+    bad = []
+    class _A(pg.Object):
+      x: pg.typing.Any()
+    a = _A(x=pg.Dict(y=1))
+    for how, f in (('r.clone()', lambda r: r.clone()), ('r.clone(deep=True)', lambda r: r.clone(deep=True)),
+                   ('copy.copy(r)', copy.copy), ('copy.deepcopy(r)', copy.deepcopy),
+                   ('copy.deepcopy([a, d])[1].r with a copied first', None)):
+      r = pg.Ref(a)
+      if f is None:
+        d = pg.Dict(r=pg.Ref(a))
+        c = copy.deepcopy([a, d])[1].sym_getattr('r')
+        r = d.sym_getattr('r')
+      else:
+        c = f(r)
+      if c is r:
+        bad.append(f'{how}: the clone is the very same Ref node')
+      elif not isinstance(c, pg.Ref) or c.value is not a:
+        bad.append(f'{how}: the clone does not reference the same object')
+    return dict(outcome='reproduced' if bad else 'not-reproduced', detail='; '.join(bad) or 'clones are new Refs to the same object')
+
+  def small_models(self):
+    from pyvc.contracts import Model
+    yield Model({}, {})
